@@ -17,6 +17,38 @@ CLAIMED = {
          "Within each sampled world the cheater subsets are enumerated (all 2^|S|-1 for |S|<=5 in the thorough tier, sampled plus fixed shapes in quick); culprit sets compared exactly with the set of altered shares.",
          "A share equal to the honest one counts as honest. Worlds are sampled, not enumerated.", "DESIGN.md §5 C04"),
 }
+CLAIMED.update({
+ "C05": ("fault_enumeration", "deterministic simulation: two concurrent sessions over the simulated network, then enumeration of cross-session slot fillings (slot-replay fault) and single-field substitutions against accept/reject oracles",
+         "All 2^|S| fillings of session A's slots with shares from A or B for |S|<=5 (sampled above); every single-field substitution (message, one hiding/binding commitment, participant added/removed/renamed, group key, verifying share, claimed identifier); signer-side wrong-nonce and missing-entry refusals; identity commitments.",
+         "Each substitution is applied only when it changes the value. Worlds sampled.", "DESIGN.md §5 C05"),
+ "C06": ("fault_enumeration", "deterministic simulation of dealer -> participants distribution (honest-path faults) + enumeration of single-coordinate tampering of every share + parameter faults; polynomial oracles by harness algebra",
+         "Every share x every coordinate (value, identifier, each commitment entry, truncate, extend) is offered to KeyPackage::try_from after a wire round trip; honest output checked against interpolation (all C(n,t) subsets when <= 200), commitment evaluation and list-order independence.",
+         "Worlds sampled; tamper positions enumerated within a world.", "DESIGN.md §5 C06"),
+ "C07": ("exploration", "deterministic simulation of the three-part DKG under seeded schedules and honest-path faults incl. crash/restart at round boundaries; oracles from recorded wire commitments and persisted secret packages (harness algebra, independent Taproot tweak, Python reference)",
+         "Seeded search over n,t, identifier schemes, wire formats, schedules and fault sequences; identical public key packages, per-participant consistency, group key = sum of C_j0 (+Taproot), share = sum_j f_j(i), signing by t-subsets.",
+         "Broadcast channel assumed for round 1. Evidence, not proof.", "DESIGN.md §5 C07"),
+ "C08": ("fault_enumeration", "deterministic simulation of an honest DKG, snapshot from the recorded history, then enumeration of every (receiver, sender) pair x every Byzantine contribution kind x every field",
+         "Per world all pairs x ~25 kinds; oracle: the consuming step fails, culprits within the offending slot, exactly the sender for proof/coefficient/share faults; control run succeeds.",
+         "Exactly one fault per trial; no attribution demanded for structural faults.", "DESIGN.md §5 C08"),
+ "C09": ("fault_enumeration", "deterministic simulation of two concurrent DKG runs; small-scope exhaustive enumeration of delivery histories (slot-replay / misroute / loss) per participant and of global run assignments",
+         "n=3: all 450 histories per participant; n=4: all 18522 in thorough on fast suites, else consistent + single-deviation + random sample; 2^n global assignments with agreement and signing.",
+         "Small scope (n in {3,4}, two runs); same round-1 map to part2 and part3.", "DESIGN.md §5 C09"),
+ "C10": ("exploration", "deterministic simulation of repeated dealer/distributed refreshes interleaved with signing under honest-path faults; consistency oracles by harness algebra; enumeration of old/new share mixes; Byzantine dealer/peer rejection cases",
+         "Seeded search over worlds, remaining sets, procedures and schedules; after each refresh all consistency facts are checked, every old/new mix pattern (|S|<=4) and removed participants must fail to sign, rejection cases incl. threshold change by t+65536 entries.",
+         "A mix is required to fail only when the harness confirms its Lagrange sum differs from the secret.", "DESIGN.md §5 C10"),
+ "C11": ("exploration", "deterministic simulation of the three repair parts over the network (arrival order = slice order; helper list order drawn) under honest-path faults; oracle = harness interpolation at the repaired identifier",
+         "Seeded search over worlds, helper sets (t..n-1), existing/new targets, schedules; repaired share = f(target) = lost share; helper deltas sum to zeta*share; refusals; signing with the repaired package.",
+         "Evidence, not proof.", "DESIGN.md §5 C11"),
+ "C13": ("fault_enumeration", "deterministic simulation with crash/restart injection: twin runs (uninterrupted baseline vs every single crash point, multi-crash subsets, reload-after-every-transition), byte-equality of all later outputs",
+         "Per world every (node, boundary) crash point is enumerated; volatile state is dropped and rebuilt from the simulated durable store (binary or JSON).",
+         "Crash between transitions; no storage corruption (property promises nothing about damaged state).", "DESIGN.md §5 C13"),
+ "C17": ("exploration", "deterministic simulation of re-randomised sessions under honest-path faults + tampering of seed / commitment set at one participant + Byzantine shares under randomisation; harness algebra for vk+G*r",
+         "Seeded search over worlds and schedules; parameter agreement, validity only under the randomised key, randomiser sensitivity, exact culprit naming, threshold enforcement, explicit randomisers incl. zero.",
+         "Evidence, not proof.", "DESIGN.md §5 C17"),
+ "C19": ("fault_enumeration", "deterministic simulation of a verifier node with several seeded verifier RNG streams; enumeration of invalid-item positions and cancelling pairs against the conjunction of single verifications",
+         "Per world: all-valid batches, empty batch, one invalid item at every position (size<=16) per kind, complementary pairs at every pair (size<=8), 3 verifier streams each.",
+         "The 2^-128 bound itself is not measurable.", "DESIGN.md §5 C19"),
+})
 NOT_YET = "check not built yet in this round (planned, see DESIGN.md §5)"
 
 checks = []
